@@ -39,7 +39,7 @@ ERR = (400, 413, 431, 501)
 HANG_S = 20
 
 
-class Hang(Exception):
+class Hang(BaseException):   # not an Exception: broad "except Exception" clauses in the code under test must not swallow the watchdog
     pass
 
 
